@@ -252,6 +252,16 @@ class Run:
 
     # ------------------------------------------------------------------ strict (step-level) conformance
     def tlc_strict(self, module, trace, field, const, to_const=lambda v: v, selftest=None, timeout=1200):
+        """field / const may be tuples: several tier-I constants that vary per run (one TLC pass per combination)."""
+        if isinstance(field, (list, tuple)):
+            fields, consts = list(field), list(const)
+            keyof = lambda ev: tuple(to_const(ev.get(f)) for f in fields)
+        else:
+            fields, consts = [field], [const]
+            keyof = lambda ev: (to_const(ev.get(field)),)
+        return self._tlc_strict(module, trace, keyof, consts, selftest, timeout)
+
+    def _tlc_strict(self, module, trace, keyof, consts, selftest, timeout):
         """Step-level trace validation of a tier-I module: every record of the recorded trace must be explained
         by an action of the tier-I module (module = <TierI>Strict.tla, which EXTENDS it). The tier-I constant
         `const` varies per run (Reset field `field`), so TLC is run once per value; runs of other values are
@@ -268,7 +278,7 @@ class Run:
             except Exception:
                 continue
             if ev.get("ev") == "Reset":
-                curv = to_const(ev.get(field))
+                curv = keyof(ev)
                 vals[curv] = vals.get(curv, 0) + 1
             if curv is not None:
                 nrec[curv] += 1
@@ -281,7 +291,9 @@ class Run:
             for f in os.listdir(SPEC):
                 if f.endswith(".tla"):
                     shutil.copy(os.path.join(SPEC, f), d)
-            cfg = re.sub(r"(?m)^(\s*%s\s*=\s*).*$" % re.escape(const), lambda m: m.group(1) + str(cval), base)
+            cfg = base
+            for cn, cv in zip(consts, cval):
+                cfg = re.sub(r"(?m)^(\s*%s\s*=\s*).*$" % re.escape(cn), lambda m, cv=cv: m.group(1) + str(cv), cfg)
             open(os.path.join(d, module + ".cfg"), "w").write(cfg)
             open(os.path.join(d, "trace.ndjson"), "w").writelines(tlines)
             p = self._tlc(["-workers", "1", "-config", module + ".cfg", module + ".tla"], d, timeout, env={"JAVA_TOOL_OPTIONS": "-Xss512m"})
@@ -294,13 +306,13 @@ class Run:
             shutil.rmtree(d, ignore_errors=True)
             return out, int(m.group(2)) if m else 0
         for cval in vals:
-            got, st = one(cval, lines, "v%s" % cval)
+            got, st = one(cval, lines, "v%s" % "-".join(str(x) for x in cval))
             self.monitor_states += st
             passes += 1
             for g in got:
-                g["const"] = cval
+                g["const"] = list(cval)
             drift += got
-        info = {"module": module, "tier_I_constant": const, "values": {str(k): v for k, v in vals.items()},
+        info = {"module": module, "tier_I_constant": consts, "values": {"/".join(str(x) for x in k): v for k, v in vals.items()},
                 "records_checked": int(sum(nrec.values())), "runs": int(sum(vals.values())), "tlc_passes": passes,
                 "drifted_runs": len(drift), "drift": drift[:10]}
         if selftest:
@@ -326,7 +338,7 @@ class Run:
                 except Exception:
                     continue
                 if ev.get("ev") == "Reset":
-                    cv = to_const(ev.get(field))
+                    cv = keyof(ev)
             got, _ = one(cv, mut, "selftest")
             hit = [g for g in got if g["l"] >= where and g["l"] <= where + 40]
             info["selftest"] = {"corrupted_record": where, "drift_reported_at": [g["l"] for g in hit][:3]}
